@@ -113,6 +113,118 @@ def make_step(fc, shape, zero_mode, N, want_exception, shared=False):
     return step
 
 
+def make_defaults(fc, given):
+    """ModbusSlaveContext built with only ONE table supplied (`given`), the others created by the constructor's defaults:
+    a write through fc must change its own (default) table only -- the default tables must be separate objects"""
+    t = regfile.TABLE[fc]
+    L = body_len(fc, 1)
+
+    def defaults(b: bytes) -> bool:
+        from pymodbus.factory import ServerDecoder
+        from pymodbus.datastore import ModbusSlaveContext
+        assume(len(b) == L)
+        assume(b[0] == 0)
+        assume(b[1] < 3)                      # low addresses (a symbolic index into a 65536-cell list is only enumerated)
+        if fc in (15, 16):
+            assume(regfile.u16(b, 2) == 1)
+        if fc == 23:
+            assume(b[4] == 0)
+            assume(b[5] < 3)
+            assume(regfile.u16(b, 2) == 1)
+            assume(regfile.u16(b, 6) == 1)
+        from pymodbus.datastore.store import ModbusSequentialDataBlock
+        orig_create = ModbusSequentialDataBlock.__dict__["create"]
+        # default tables of 64 cells instead of 65536 (same constructor path; only the size of what create() returns)
+        ModbusSequentialDataBlock.create = classmethod(lambda klass: klass(0x00, [0x00] * 64))
+        try:
+            ctx = ModbusSlaveContext(**{given: _block(0, [9, 9, 9, 9])})
+        finally:
+            ModbusSequentialDataBlock.create = orig_create
+        names = {"d": "di", "c": "co", "i": "ir", "h": "hr"}
+        code = regfile.verdict(fc, b, (0, [0] * 64), False)
+        assume(code == 0)
+        req = ServerDecoder().decode(bytes([fc]) + b)
+        resp = req.execute(ctx)
+        if resp.function_code >= 0x80:
+            explain("valid request answered with exception %r", resp.exception_code)
+            return False
+        for k in "dcih":
+            if k == t:
+                continue
+            vals = ctx.store[k].values
+            want = [9, 9, 9, 9] if names[k] == given else None
+            if want is not None:
+                if list(vals) != want:
+                    explain("supplied table %s changed", k)
+                    return False
+            else:
+                for i in range(6):
+                    if vals[i] != 0:
+                        explain("default table %s changed at cell %d by a write through fc %d", k, i, fc)
+                        return False
+        return True
+    return defaults
+
+
+SPARSE_KEYS = [0, 1, 2, 5, 6]          # a sparse table with a hole at 3..4
+
+
+def make_sparse(fc, want_exception):
+    """the addressed table is a ModbusSparseDataBlock with a hole; model: a range is valid iff every cell exists"""
+    L = body_len(fc, 1)
+
+    def sparse(v: List[int], b: bytes) -> bool:
+        from pymodbus.factory import ServerDecoder
+        from pymodbus.datastore import ModbusSlaveContext, ModbusSparseDataBlock
+        assume(len(v) == len(SPARSE_KEYS) and len(b) == L)
+        for x in v:
+            assume(0 <= x <= 65535)
+        assume(b[0] == 0)
+        assume(b[1] <= 8)
+        qty = regfile.u16(b, 2)
+        addr = b[1]
+        blk = ModbusSparseDataBlock({0: 0})
+        blk.values = dict(zip(SPARSE_KEYS, v))
+        blk.address = 0
+        ctx = ModbusSlaveContext(di=_block(0, [False]), co=_block(0, [False]), ir=_block(0, [7]), hr=blk, zero_mode=True)
+        # reference verdict: quantity limits first, then every addressed cell must exist
+        if fc == 3:
+            if not (1 <= qty <= 125):
+                code = 3
+            else:
+                assume(qty <= 8)
+                code = 0 if all((addr + i) in SPARSE_KEYS for i in range(qty)) else 2
+        else:
+            bc = b[4]
+            known("KF-write-registers-short-data", _regs_short(16, b))
+            if not (1 <= qty <= 123) or bc != 2 * qty or len(b) < 5 + bc:
+                code = 3
+            else:
+                code = 0 if all((addr + i) in SPARSE_KEYS for i in range(qty)) else 2
+        assume((code != 0) == want_exception)
+        before = dict(blk.values)
+        req = ServerDecoder().decode(bytes([fc]) + b)
+        try:
+            resp = req.execute(ctx)
+        except Exception as e:
+            explain("execute raised %s on a sparse table", type(e).__name__)
+            return False
+        got = bytes([resp.function_code]) + resp.encode()
+        if code != 0:
+            if not same(got, regfile.exc(fc, code), "exception response"):
+                return False
+            return same(dict(blk.values), before, "sparse table after a rejected request")
+        if fc == 3:
+            exp = bytes([3, 2 * qty])
+            for i in range(qty):
+                exp = exp + regfile.be16(before[addr + i])
+            return same(got, exp, "read response") and same(dict(blk.values), before, "sparse table after a read")
+        after = dict(before)
+        after[addr] = regfile.u16(b, 5)
+        return same(got, bytes([16]) + b[0:4], "write response") and same(dict(blk.values), after, "sparse table after the write")
+    return sparse
+
+
 def _maskwrite_differs(vals, start, b, zero_mode):
     """region of KF-maskwrite-formula: (or_mask AND and_mask) != 0 -- exactly where (cur&and)|or differs
     from (cur&and)|(or&~and) for some current value"""
@@ -166,6 +278,23 @@ def step_obligations(tier, want_exception, prefix):
     return out
 
 
+def extra_obligations(tier, want_exception, prefix):
+    T = 120 if tier == "quick" else 900
+    out = []
+    for fc in (3, 16):
+        out.append(Obl("%s.sparse.fc%d" % (prefix, fc), make_sparse(fc, want_exception), timeout=T,
+                       bounds="holding registers = sparse block with cells %s (hole at 3..4), symbolic contents; fc %d, address 0..8, quantity symbolic; %s requests" % (
+                           SPARSE_KEYS, fc, "rejected" if want_exception else "valid")))
+    return out
+
+
 def obligations(tier):
     from harness import kernels
-    return [kernels.K3(tier)] + step_obligations(tier, False, "step")
+    T = 120 if tier == "quick" else 900
+    out = [kernels.K3(tier)] + step_obligations(tier, False, "step") + extra_obligations(tier, False, "step")
+    combos = [(6, "co"), (16, "di"), (5, "hr")] if tier == "quick" else [(6, "co"), (16, "di"), (5, "hr"), (15, "ir"), (22, "co"), (23, "di")]
+    for fc, given in combos:
+        out.append(Obl("defaults.fc%d.only-%s-supplied" % (fc, given), make_defaults(fc, given), timeout=T,
+                       contracts=("bits",) if fc == 15 else (),
+                       bounds="slave context constructed with only the '%s' table supplied (the others come from the constructor's defaults; create() shortened to 64 cells); fc %d write at address 0..2 with symbolic value: every other table unchanged" % (given, fc)))
+    return out
